@@ -228,7 +228,7 @@ RANGES = {
 }
 
 
-def gen_values(seed: int, uspec: dict, refs: list, neg: bool = False) -> dict:
+def gen_values(seed: int, uspec: dict, refs: list, neg: bool = False, edge: bool = False) -> dict:
     """{ref: {var: [floats]}} -- admissible values, a pure function of the stored seed.
     ``neg``: a few states are made negative (METANET can produce them; the positive_init_*
     options exist for that case)."""
@@ -244,6 +244,8 @@ def gen_values(seed: int, uspec: dict, refs: list, neg: bool = False) -> dict:
                 vals[var] = [float(x) for x in g.uniform(lo, hi, size=n)]
                 if neg and grp == "states" and n and g.random() < 0.5:
                     vals[var][int(g.integers(n))] *= -0.1
+                if edge and n and g.random() < 0.3:  # boundary values: exact zero, tiny, huge
+                    vals[var][int(g.integers(n))] = float(g.choice([0.0, 1e-12, 1e6]))
         if vals:
             out[r] = vals
     return out
